@@ -70,6 +70,9 @@ func (in *Interp) invoke(fnv Value, args []Value, c *ssa.CallCommon, fr *Frame) 
 	if h, ok := in.hooks[name]; ok {
 		return h(in, args)
 	}
+	if in.summaries["FindRoot"] && name == repoMod+"/util/fn.FindRoot" {
+		return in.findRootSummary(args, c, fr)
+	}
 	if fn.Name() == "init" && fn.Synthetic != "" && fn.Pkg != nil {
 		if !in.inRepo(fn) {
 			return nil
@@ -776,4 +779,24 @@ func (in *Interp) timeStub(name string, fn *ssa.Function, args []Value) []Value 
 		out = append(out, in.zero(res.At(i).Type()))
 	}
 	return out
+}
+
+// findRootSummary replaces fn.FindRoot by the contract that the C18 obligations establish for
+// it (result inside the bracket, returned value is f at the returned point) plus the stated
+// assumption that the iteration budget suffices (|f(x)| < tolerance).  The precondition
+// f(min) <= 0 <= f(max) is an obligation here (the real code panics otherwise).
+func (in *Interp) findRootSummary(args []Value, c *ssa.CallCommon, fr *Frame) []Value {
+	ts := in.ts
+	f := args[0]
+	minX, maxX, tol := args[3].(*Term), args[4].(*Term), args[5].(*Term)
+	call := func(x *Term) *Term { return in.invoke(f, []Value{x}, nil, fr)[0].(*Term) }
+	zero := in.realConst(0)
+	fmin, fmax := call(minX), call(maxX)
+	in.implicitFail("FindRoot-invalid-range", ts.And(ts.FCmp("fle", fmin, zero), ts.FCmp("fle", zero, fmax)))
+	x := ts.Fresh("findroot_x", in.floatSort())
+	in.assume(ts.And(ts.FCmp("fle", minX, x), ts.FCmp("fle", x, maxX)))
+	d := call(x)
+	in.assume(ts.FCmp("flt", in.fabs(d), tol))
+	in.notes = appendNote(in.notes, "fn.FindRoot summarised by its contract: minX <= x <= maxX, delta = f(x), |delta| < tolerance (iteration budget assumed sufficient)")
+	return []Value{x, d}
 }
